@@ -72,14 +72,21 @@ class Horizon(Exception):
     """the batch of pre-iterations ran into the resolution horizon (C03 known finding): nothing to judge for C01"""
 
 
-def solve_case(N, bx, r, eps, f_u, density=None, pre=0):
+def solve_case(N, bx, r, eps, f_u, density=None, pre=0, coarse=None):
     lo, up = box(bx, N)
     lo_a = np.array(lo)
     w = np.array(up) - lo_a
     order = []
     rec = Recorder(on_iter=lambda pts, sol: order.extend((p.GetX(), p.GetZ()) for p in pts))
     cfg = dict(N=N, box=bx, r=r, eps=eps, itersLimit=LIMIT, density=density)
+    if coarse is not None:
+        # two stages on one solver: Solve with a coarse eps and local refinement, then the user tightens
+        # parameters.eps and calls Solve again - the second result must be certified for the tighter eps
+        cfg = dict(cfg, eps=coarse, refine=True)
     run = tree.make_run(cfg, lambda k, y: f_u((y - lo_a) / w), listeners=[rec])
+    if coarse is not None:
+        run.solve()
+        run.params.eps = eps
     if pre:
         try:
             run.step(pre)          # the iterations may be started through the step-wise API and finished by Solve
@@ -104,7 +111,9 @@ def judge(N, r, eps, L, fstar, sol, order, m):
             if j is not None and ref.hold(ref.xs[j - 1], ref.xs[j]) < eps:
                 k0 = k       # first trial (0-based) that subdivided an interval shorter than eps
         ref.add(x, z)
-    if len(ref.M_hist) < 2 or k0 is None or k0 < 1:
+    if k0 is None:
+        k0 = len(order) - 1      # accuracy is claimed although no recorded trial split a sub-eps interval: last decision
+    if len(ref.M_hist) < 2 or k0 < 1:
         return "too_short", None, None
     # M in force when that interval was chosen (for a plain Solve it is the last trial; when iterations were made in
     # batches before Solve the search may have gone on past it - the bound then follows from that earlier moment)
@@ -129,7 +138,7 @@ def family_case(task):
     m = task.get("density") or 10
     f, L, fstar = family(kind, par, N)
     try:
-        run, sol, order = solve_case(N, bx, r, eps, f, task.get("density"), task.get("pre", 0))
+        run, sol, order = solve_case(N, bx, r, eps, f, task.get("density"), task.get("pre", 0), task.get("coarse"))
     except Horizon:
         return "resolution_horizon", None, None, 0
     except BaseException as e:
@@ -219,6 +228,11 @@ def plan_families(ctx):
             for eps in (0.01, 0.001):
                 for L, r in ((1.0, 2.0), (3.0, 3.5), (10.0, 8.0)) if th else ((3.0, 3.5),):
                     tasks.append(dict(N=1, box="B0", r=r, eps=eps, kind="zig", par=[list(slopes), L], pre=pre))
+    # two-stage use of one solver: coarse eps with refinement, then a tighter eps
+    for slopes in itertools.product((-1, 0, 1), repeat=5):
+        for coarse, eps in ((0.5, 0.01), (0.3, 0.002), (0.15, 0.01)):
+            for L, r in ((1.0, 2.0), (3.0, 3.5), (10.0, 8.0)) if th else ((1.0, 3.0),):
+                tasks.append(dict(N=1, box="B1", r=r, eps=eps, kind="zig", par=[list(slopes), L], coarse=coarse))
     lat = (0.0, 1.0 / 3.0, 0.5, 1.0)
     epsN = {1: (0.1, 0.01), 2: (0.1, 0.03), 3: (0.2, 0.1), 4: (0.3, 0.2), 5: (0.3, 0.2)}
     if th:
@@ -233,7 +247,7 @@ def plan_families(ctx):
             centres = centres[::3]
         if not th and N == 4:
             centres = centres[::2]
-        boxes = ("B0", "B1", "B2", "B3")
+        boxes = ("B0", "B1", "B2", "B3") if N == 1 else ("B0", "B1", "B2", "B3", "D")
         i = 0
         for c in centres:
             for p in (2, "inf"):
@@ -241,7 +255,7 @@ def plan_families(ctx):
                     for r in rs:
                         for eps in epsN[N]:
                             i += 1
-                            tasks.append(dict(N=N, box=boxes[i % 4], r=r, eps=eps, kind="cone",
+                            tasks.append(dict(N=N, box=boxes[i % len(boxes)], r=r, eps=eps, kind="cone",
                                               par=[[[0.0, L, list(c)]], p]))
         # pairs of cones: global one at c, a shallower decoy elsewhere
         for c, c2 in list(zip(centres, centres[1:] + centres[:1]))[:: (1 if th or N == 1 else 2)]:
@@ -249,7 +263,7 @@ def plan_families(ctx):
                 for r in rs[1:]:
                     eps = epsN[N][0]
                     i += 1
-                    tasks.append(dict(N=N, box=boxes[i % 4], r=r, eps=eps, kind="cone",
+                    tasks.append(dict(N=N, box=boxes[i % len(boxes)], r=r, eps=eps, kind="cone",
                                       par=[[[0.0, L, list(c)], [0.05 * L, 0.5 * L, list(c2)]], 2]))
         for a in itertools.product((-1, 0, 1), repeat=N):
             if not any(a):
@@ -258,7 +272,7 @@ def plan_families(ctx):
                 for r in rs:
                     for eps in epsN[N][:1] if N >= 3 and not th else epsN[N]:
                         i += 1
-                        tasks.append(dict(N=N, box=boxes[i % 4], r=r, eps=eps, kind="lin", par=[list(a), L]))
+                        tasks.append(dict(N=N, box=boxes[i % len(boxes)], r=r, eps=eps, kind="lin", par=[list(a), L]))
         for r in rs:
             for eps in epsN[N]:
                 tasks.append(dict(N=N, box="B2", r=r, eps=eps, kind="const", par=0.75))
